@@ -53,6 +53,7 @@ func checkC16(w *World, r *Report) {
 	ruleDecorExchange(w, r, "C16")
 	ruleDecorAlwaysCalled(w, r, "C16")
 	ruleStateAgrees(w, r, "C16")
+	ruleLocksReleased(w, r, "C16.L-UNLOCK")
 	checkCloseOnce(w, r, "C16.R5")
 	checkHeapSendDiscipline(w, r, "C16.R4")
 }
